@@ -83,6 +83,8 @@ def gen_traces(args):
         elif r < 0.4:
             thr_type = "relative"
             thr = (int(rng.integers(1, 8)), 8)
+        if thr is None and rng.random() < 0.25:
+            kw["full"] = True                    # documented switch (not combinable with a threshold): selections continue when the data is exhausted
         if rng.random() < 0.15:
             kw["progress_bar"] = True            # the reporting wrapper around the selection loop (TQDM_DISABLE=1 silences it)
         kw = core.reduce_kwargs(cls, kw)      # documented defaults are left out about half of the time
